@@ -22,6 +22,7 @@ def suite_ok(wt):
 
 def main():
   prop, n, wt = sys.argv[1], sys.argv[2], sys.argv[3]
+  dest_n = sys.argv[4] if len(sys.argv) > 4 else n
   mdir = os.path.join(wt, '_mutants')
   patch, demo = os.path.join(mdir, f'patch{n}.diff'), os.path.join(mdir, f'demo{n}.py')
   env = dict(os.environ, PYTHONPATH=wt)
@@ -34,10 +35,10 @@ def main():
   missing = suite_ok(wt)
   sh('git checkout -- .', cwd=wt)
   ok = rc_clean == 0 and rc_mut != 0 and not missing
-  print(f'{prop}-{n}: demo clean rc={rc_clean}, demo changed rc={rc_mut}, baseline tests missing with change={len(missing)} -> {"KEEP" if ok else "REJECT"}')
+  print(f'{prop}-{dest_n}: demo clean rc={rc_clean}, demo changed rc={rc_mut}, baseline tests missing with change={len(missing)} -> {"KEEP" if ok else "REJECT"}')
   if not ok:
     print(out_clean[-300:], out_mut[-300:], missing[:5]); return 1
-  dst = f'/verif/seeded/{prop}-{n}'
+  dst = f'/verif/seeded/{prop}-{dest_n}'
   os.makedirs(dst, exist_ok=True)
   shutil.copy(patch, os.path.join(dst, 'patch.diff'))
   shutil.copy(demo, os.path.join(dst, 'demo.py'))
